@@ -75,15 +75,48 @@ Qed.
 Lemma good_lt_le : forall {T} (c : T -> T -> comparison), good c -> forall a b d, c a b = Lt -> c b d <> Gt -> c a d = Lt.
 Proof.
   intros T c G a b d H1 H2. destruct (c a d) eqn:E; [| reflexivity |].
-  - apply G in E. subst. rewrite (g_anti c G a b), H1 in H2. cbn in H2. congruence.
+  - apply G in E. rewrite <- E in H2. rewrite (g_anti c G a b), H1 in H2. cbn in H2. congruence.
   - exfalso. apply (g_trans c G a b d); congruence.
 Qed.
 Lemma good_le_lt : forall {T} (c : T -> T -> comparison), good c -> forall a b d, c a b <> Gt -> c b d = Lt -> c a d = Lt.
 Proof.
   intros T c G a b d H1 H2. destruct (c a d) eqn:E; [| reflexivity |].
-  - apply G in E. subst. rewrite (g_anti c G b d), H2 in H1. cbn in H1. congruence.
+  - apply G in E. rewrite E in H1. rewrite (g_anti c G b d), H2 in H1. cbn in H1. congruence.
   - exfalso. apply (g_trans c G a b d); congruence.
 Qed.
+
+(* a comparator that is antisymmetric and <=-transitive on the elements satisfying P *)
+Section PreorderOn.
+  Context {T : Type} (P : T -> Prop) (c : T -> T -> comparison).
+  Hypothesis anti : forall a b, P a -> P b -> c b a = CompOpp (c a b).
+  Hypothesis trans : forall a b d, P a -> P b -> P d -> c a b <> Gt -> c b d <> Gt -> c a d <> Gt.
+  Lemma on_lt_le : forall a b d, P a -> P b -> P d -> c a b = Lt -> c b d <> Gt -> c a d = Lt.
+  Proof.
+    intros a b d Pa Pb Pd H1 H2. destruct (c a d) eqn:E; [| reflexivity |].
+    - exfalso. apply (trans b d a Pb Pd Pa H2).
+      + rewrite (anti a d Pa Pd), E. cbn. congruence.
+      + rewrite (anti a b Pa Pb), H1. reflexivity.
+    - exfalso. apply (trans a b d); congruence.
+  Qed.
+  Lemma on_le_lt : forall a b d, P a -> P b -> P d -> c a b <> Gt -> c b d = Lt -> c a d = Lt.
+  Proof.
+    intros a b d Pa Pb Pd H1 H2. destruct (c a d) eqn:E; [| reflexivity |].
+    - exfalso. apply (trans d a b Pd Pa Pb).
+      + rewrite (anti a d Pa Pd), E. cbn. congruence.
+      + assumption.
+      + rewrite (anti b d Pb Pd), H2. reflexivity.
+    - exfalso. apply (trans a b d); congruence.
+  Qed.
+  Lemma on_eq_eq : forall a b d, P a -> P b -> P d -> c a b = Eq -> c b d = Eq -> c a d = Eq.
+  Proof.
+    intros a b d Pa Pb Pd H1 H2. destruct (c a d) eqn:E; [reflexivity | |].
+    - exfalso. apply (trans d b a Pd Pb Pa).
+      + rewrite (anti b d Pb Pd), H2. cbn. congruence.
+      + rewrite (anti a b Pa Pb), H1. cbn. congruence.
+      + rewrite (anti a d Pa Pd), E. reflexivity.
+    - exfalso. apply (trans a b d); congruence.
+  Qed.
+End PreorderOn.
 
 (* ------------------------------------------------------------------ sv_cmp on values of one type *)
 Definition pcmp (a b : sv) : comparison :=
@@ -184,30 +217,304 @@ Proof.
   - eauto.
   - rewrite pcmp_refl. reflexivity.
   - cbn [option_map]. rewrite pcmp_anti by assumption. reflexivity.
-  - intros x y E1 E2 Hx Hy. inversion E1; inversion E2; subst. exists (pcmp a d). split; [reflexivity|]. split.
+  - intros x y E1 E2 Hx Hy. inversion E1; inversion E2; subst. exists (pcmp a d). split; [reflexivity|].
+    set (P := fun v => sv_ty v = sv_ty a).
+    assert (An : forall u v, P u -> P v -> pcmp v u = CompOpp (pcmp u v)) by (unfold P; intros; apply pcmp_anti; congruence).
+    assert (Tr : forall u v w, P u -> P v -> P w -> pcmp u v <> Gt -> pcmp v w <> Gt -> pcmp u w <> Gt)
+      by (unfold P; intros u v w ? ? ?; apply pcmp_trans; congruence).
+    assert (Pa : P a) by reflexivity. assert (Pb : P b) by (unfold P; congruence). assert (Pd : P d) by (unfold P; congruence).
+    split.
     + apply pcmp_trans with b; assumption.
-    + intros [L|L]; destruct (pcmp a d) eqn:E; try reflexivity; exfalso.
-      * apply pcmp_eq_iff in E; [|assumption].
-        assert (A : pcmp d b <> Gt).
-        { intros G. apply (pcmp_trans d a b); try congruence.
-          - rewrite pcmp_anti by assumption. rewrite (proj2 (pcmp_eq_iff a d H3) E). cbn. congruence.
-          - rewrite L. congruence. }
-        rewrite pcmp_anti in A by assumption.
-        assert (B : pcmp b d = Eq) by (destruct (pcmp b d); cbn in A; congruence).
-        assert (C : pcmp a b <> Lt).
-        { intros _. assert (X : pcmp b a <> Gt).
-          { apply (pcmp_trans b d a); try congruence.
-            - rewrite pcmp_anti by assumption. rewrite (proj2 (pcmp_eq_iff a d H3) E). cbn. congruence. }
-          rewrite pcmp_anti, L in X by assumption. cbn in X. congruence. }
-        congruence.
-      * apply (pcmp_trans a b d); congruence.
-      * apply pcmp_eq_iff in E; [|assumption].
-        assert (X : pcmp d b <> Gt).
-        { apply (pcmp_trans d a b); try congruence.
-          rewrite pcmp_anti by assumption. rewrite (proj2 (pcmp_eq_iff a d H3) E). cbn. congruence. }
-        rewrite pcmp_anti, L in X by assumption. cbn in X. congruence.
-      * apply (pcmp_trans a b d); congruence.
+    + intros [L|L].
+      * apply (on_lt_le P pcmp An Tr a b d); assumption.
+      * apply (on_le_lt P pcmp An Tr a b d); assumption.
   - intros E. inversion E. apply pcmp_eq_iff; assumption.
   - intros E. f_equal. apply pcmp_eq_iff; assumption.
   - intros Na Nb. f_equal. apply pcmp_null_smallest; assumption.
+Qed.
+
+(* ------------------------------------------------------------------ Eq => equal Hash input *)
+Lemma opt_eqb_bool : forall x y, opt_eqb Bool.eqb x y = true -> x = y.
+Proof. intros [[]|] [[]|]; cbn; congruence. Qed.
+Lemma ity_eqb_eq : forall a b, ity_eqb a b = true -> a = b.
+Proof. destruct a, b; cbn; congruence. Qed.
+
+Theorem eq_hash_consistent_pf : forall a b, sv_eqb a b = true -> sv_enc a = sv_enc b.
+Proof.
+  intros a b H. destruct a, b; cbn [sv_eqb] in H; try discriminate; cbn [sv_enc].
+  - reflexivity.
+  - apply opt_eqb_bool in H. subst. reflexivity.
+  - apply andb_true_iff in H. destruct H as [H1 H2]. apply ity_eqb_eq in H1. apply opt_eqb_Z in H2. subst. reflexivity.
+  - apply andb_true_iff in H. destruct H as [_ H2].
+    destruct v as [x|], v0 as [y|]; cbn in H2; try discriminate; [|reflexivity]. apply bytes_eqb_eq in H2. subst. reflexivity.
+  - apply andb_true_iff in H. destruct H as [_ H2]. apply opt_eqb_Z in H2. subst. reflexivity.
+  - apply andb_true_iff in H. destruct H as [H H3]. apply andb_true_iff in H. destruct H as [H1 H2].
+    apply opt_eqb_Z in H1. apply Z.eqb_eq in H2. apply Z.eqb_eq in H3. subst. reflexivity.
+Qed.
+
+(* ------------------------------------------------------------------ integer casts, checked addition *)
+Theorem int_cast_roundtrip_pf : forall t1 t2 z,
+  in_range t1 z = true -> subrange t1 t2 = true ->
+  cast_int t2 (Some z) = Some (Some z) /\ cast_int t1 (Some z) = Some (Some z).
+Proof.
+  intros t1 t2 z H S. unfold cast_int. rewrite H. split; [|reflexivity].
+  unfold in_range, subrange in *. apply andb_true_iff in H. apply andb_true_iff in S. destruct H as [A B], S as [C D].
+  apply Z.leb_le in A, B, C, D. replace ((lo t2 <=? z) && (z <=? hi t2)) with true; [reflexivity|].
+  symmetry. apply andb_true_iff. split; apply Z.leb_le; lia.
+Qed.
+Theorem int_cast_fails_iff_pf : forall t z, cast_int t (Some z) = None <-> (z < lo t \/ hi t < z).
+Proof.
+  intros t z. unfold cast_int, in_range. destruct (lo t <=? z) eqn:A; destruct (z <=? hi t) eqn:B; cbn [andb];
+    try apply Z.leb_le in A; try apply Z.leb_le in B; try apply Z.leb_gt in A; try apply Z.leb_gt in B;
+    split; try congruence; try lia; intros; reflexivity.
+Qed.
+
+Lemma range_width : forall t, hi t - lo t + 1 = 2 ^ bits t /\ 0 < 2 ^ bits t.
+Proof. destruct t; cbn; lia. Qed.
+
+Theorem add_checked_spec_pf : forall t x y,
+  in_range t x = true -> in_range t y = true ->
+  (add_checked t (Some x) (Some y) = Some (Some (x + y)) <-> in_range t (x + y) = true) /\
+  (add_checked t (Some x) (Some y) = None <-> in_range t (x + y) = false) /\
+  (in_range t (x + y) = true -> add_wrapping t (Some x) (Some y) = Some (x + y)) /\
+  (forall r, add_wrapping t (Some x) (Some y) = Some r -> in_range t r = true /\ (r - (x + y)) mod 2 ^ bits t = 0).
+Proof.
+  intros t x y Hx Hy. unfold add_checked, add_wrapping. destruct (range_width t) as [W Wp].
+  repeat split.
+  - destruct (in_range t (x + y)); congruence.
+  - intros ->. reflexivity.
+  - destruct (in_range t (x + y)); congruence.
+  - intros ->. reflexivity.
+  - intros H. f_equal. unfold wrap, in_range in *. apply andb_true_iff in H. destruct H as [A B].
+    apply Z.leb_le in A, B. rewrite Z.mod_small by lia. lia.
+  - inversion H; subst. unfold wrap, in_range. pose proof (Z.mod_pos_bound (x + y - lo t) (2 ^ bits t) Wp).
+    apply andb_true_iff. split; apply Z.leb_le; lia.
+  - inversion H; subst. unfold wrap. pose proof (Z.mod_eq (x + y - lo t) (2 ^ bits t)) as Hm.
+    replace (lo t + (x + y - lo t) mod 2 ^ bits t - (x + y)) with ((- ((x + y - lo t) / 2 ^ bits t)) * 2 ^ bits t)
+      by (rewrite Hm by lia; ring).
+    apply Z.mod_mul. lia.
+Qed.
+
+(* ------------------------------------------------------------------ compare_rows on typed rows *)
+Definition ccmp (so : sort_opt) (l r : sv) : comparison :=
+  let '(desc, nulls_first) := so in
+  match sv_is_null l, sv_is_null r with
+  | true, false => if nulls_first then Lt else Gt
+  | false, true => if nulls_first then Gt else Lt
+  | false, false => if desc then pcmp r l else pcmp l r
+  | true, true => Eq
+  end.
+Lemma col_cmp_same_ty : forall so l r, sv_ty l = sv_ty r -> col_cmp so l r = Some (ccmp so l r).
+Proof.
+  intros [desc nf] l r H. unfold col_cmp, ccmp. destruct (sv_is_null l), (sv_is_null r); try reflexivity.
+  destruct desc; apply sv_cmp_same_ty; congruence.
+Qed.
+
+Lemma pcmp_nulls_eq : forall a b, sv_ty a = sv_ty b -> sv_is_null a = true -> sv_is_null b = true -> pcmp a b = Eq.
+Proof.
+  intros a b H Na Nb. destruct a, b; cbn in H; try discriminate; cbn in Na, Nb; try discriminate;
+    repeat match goal with v : option _ |- _ => destruct v end; try discriminate; reflexivity.
+Qed.
+
+Lemma ccmp_anti : forall so a b, sv_ty a = sv_ty b -> ccmp so b a = CompOpp (ccmp so a b).
+Proof.
+  intros [desc nf] a b H. unfold ccmp. destruct (sv_is_null a), (sv_is_null b), nf; try reflexivity;
+    destruct desc; apply pcmp_anti; congruence.
+Qed.
+Lemma ccmp_trans : forall so a b d, sv_ty a = sv_ty b -> sv_ty b = sv_ty d ->
+  ccmp so a b <> Gt -> ccmp so b d <> Gt -> ccmp so a d <> Gt.
+Proof.
+  intros [desc nf] a b d H1 H2. unfold ccmp.
+  destruct (sv_is_null a), (sv_is_null b), (sv_is_null d), nf; try congruence;
+    destruct desc; intros A B.
+  - apply (pcmp_trans d b a); congruence.
+  - apply (pcmp_trans a b d); congruence.
+  - apply (pcmp_trans d b a); congruence.
+  - apply (pcmp_trans a b d); congruence.
+Qed.
+
+Fixpoint rcmp (sos : list sort_opt) (x y : row) : comparison :=
+  match x, y, sos with
+  | l :: x', r :: y', so :: sos' => match ccmp so l r with Eq => rcmp sos' x' y' | c => c end
+  | _, _, _ => Eq
+  end.
+
+Lemma row_typed_nil_inv : forall r, row_typed [] r -> r = [].
+Proof. intros r H. inversion H. reflexivity. Qed.
+Lemma row_typed_cons_inv : forall t sch r, row_typed (t :: sch) r ->
+  exists v r', r = v :: r' /\ sv_ty v = t /\ row_typed sch r'.
+Proof. intros t sch r H. inversion H; subst. eauto. Qed.
+
+Lemma compare_rows_typed : forall sch sos x y, row_typed sch x -> row_typed sch y ->
+  compare_rows x y sos = Some (rcmp sos x y).
+Proof.
+  induction sch as [|t sch IH]; intros sos x y Hx Hy.
+  - apply row_typed_nil_inv in Hx. apply row_typed_nil_inv in Hy. subst. destruct sos; reflexivity.
+  - apply row_typed_cons_inv in Hx. apply row_typed_cons_inv in Hy.
+    destruct Hx as [u [x' [-> [Tu Hx]]]], Hy as [v [y' [-> [Tv Hy]]]].
+    destruct sos as [|so sos]; [reflexivity|]. cbn [compare_rows rcmp].
+    rewrite col_cmp_same_ty by congruence. destruct (ccmp so u v); try reflexivity. apply IH; assumption.
+Qed.
+
+Lemma rcmp_anti : forall sch sos x y, row_typed sch x -> row_typed sch y -> rcmp sos y x = CompOpp (rcmp sos x y).
+Proof.
+  induction sch as [|t sch IH]; intros sos x y Hx Hy.
+  - apply row_typed_nil_inv in Hx. apply row_typed_nil_inv in Hy. subst. destruct sos; reflexivity.
+  - apply row_typed_cons_inv in Hx. apply row_typed_cons_inv in Hy.
+    destruct Hx as [u [x' [-> [Tu Hx]]]], Hy as [v [y' [-> [Tv Hy]]]].
+    destruct sos as [|so sos]; [reflexivity|]. cbn [rcmp]. rewrite (ccmp_anti so u v) by congruence.
+    destruct (ccmp so u v); cbn [CompOpp]; try reflexivity. apply IH; assumption.
+Qed.
+
+Lemma rcmp_trans : forall sch sos a b d, row_typed sch a -> row_typed sch b -> row_typed sch d ->
+  rcmp sos a b <> Gt -> rcmp sos b d <> Gt -> rcmp sos a d <> Gt.
+Proof.
+  induction sch as [|t sch IH]; intros sos a b d Ha Hb Hd.
+  - apply row_typed_nil_inv in Ha. apply row_typed_nil_inv in Hb. apply row_typed_nil_inv in Hd. subst.
+    destruct sos; cbn; congruence.
+  - apply row_typed_cons_inv in Ha. apply row_typed_cons_inv in Hb. apply row_typed_cons_inv in Hd.
+    destruct Ha as [u [a' [-> [Tu Ha]]]], Hb as [v [b' [-> [Tv Hb]]]], Hd as [w [d' [-> [Tw Hd]]]].
+    destruct sos as [|so sos]; [cbn; congruence|]. cbn [rcmp].
+    set (P := fun x => sv_ty x = t).
+    assert (An : forall x y, P x -> P y -> ccmp so y x = CompOpp (ccmp so x y)) by (unfold P; intros; apply ccmp_anti; congruence).
+    assert (Tr : forall x y z, P x -> P y -> P z -> ccmp so x y <> Gt -> ccmp so y z <> Gt -> ccmp so x z <> Gt)
+      by (unfold P; intros x y z ? ? ?; apply ccmp_trans; congruence).
+    assert (P0 : P u) by assumption. assert (P1 : P v) by assumption. assert (P2 : P w) by assumption.
+    destruct (ccmp so u v) eqn:E1; try congruence; destruct (ccmp so v w) eqn:E2; try congruence; intros A B.
+    + rewrite (on_eq_eq P (ccmp so) An Tr u v w) by assumption. apply (IH sos a' b' d'); assumption.
+    + rewrite (on_le_lt P (ccmp so) An Tr u v w) by (try assumption; congruence). congruence.
+    + rewrite (on_lt_le P (ccmp so) An Tr u v w) by (try assumption; congruence). congruence.
+    + rewrite (on_lt_le P (ccmp so) An Tr u v w) by (try assumption; congruence). congruence.
+Qed.
+
+Theorem compare_rows_order_pf : forall sch sos a b d, row_typed sch a -> row_typed sch b -> row_typed sch d ->
+  (exists x, compare_rows a b sos = Some x) /\
+  compare_rows b a sos = option_map CompOpp (compare_rows a b sos) /\
+  (forall x y, compare_rows a b sos = Some x -> compare_rows b d sos = Some y -> x <> Gt -> y <> Gt ->
+     exists z, compare_rows a d sos = Some z /\ z <> Gt /\ (x = Lt \/ y = Lt -> z = Lt)).
+Proof.
+  intros sch sos a b d Ha Hb Hd.
+  rewrite (compare_rows_typed sch sos a b Ha Hb), (compare_rows_typed sch sos b a Hb Ha),
+    (compare_rows_typed sch sos b d Hb Hd), (compare_rows_typed sch sos a d Ha Hd).
+  set (P := row_typed sch).
+  assert (An : forall u v, P u -> P v -> rcmp sos v u = CompOpp (rcmp sos u v)) by (unfold P; intros; apply (rcmp_anti sch); assumption).
+  assert (Tr : forall u v w, P u -> P v -> P w -> rcmp sos u v <> Gt -> rcmp sos v w <> Gt -> rcmp sos u w <> Gt)
+    by (unfold P; intros u v w ? ? ?; apply (rcmp_trans sch); assumption).
+  repeat split.
+  - eauto.
+  - cbn [option_map]. f_equal. apply An; assumption.
+  - intros x y E1 E2 Hx Hy. inversion E1; inversion E2; subst. exists (rcmp sos a d). split; [reflexivity|]. split.
+    + apply (Tr a b d); assumption.
+    + intros [L|L]; [apply (on_lt_le P (rcmp sos) An Tr a b d) | apply (on_le_lt P (rcmp sos) An Tr a b d)]; assumption.
+Qed.
+
+(* ------------------------------------------------------------------ bisect / linear_search *)
+Section Search.
+  Variable f : row -> option bool.
+  (* the first k rows satisfy f, the others do not (and f never fails) *)
+  Definition partitioned (rows : list row) (k : nat) : Prop :=
+    (k <= length rows)%nat /\ forall i r, nth_error rows i = Some r -> f r = Some (Nat.ltb i k).
+
+  Lemma bisect_go_partitioned : forall fuel rows k low high, partitioned rows k ->
+    (low <= k)%nat -> (k <= high)%nat -> (high <= length rows)%nat -> (high - low <= fuel)%nat ->
+    bisect_go fuel rows f low high = Some k.
+  Proof.
+    induction fuel as [|fuel IH]; intros rows k low high [Hk Hp] H1 H2 H3 H4; cbn [bisect_go].
+    - destruct (Nat.ltb low high) eqn:L; [apply Nat.ltb_lt in L; lia|]. f_equal. lia.
+    - destruct (Nat.ltb low high) eqn:L.
+      + apply Nat.ltb_lt in L.
+        assert (Q : (Nat.div (high - low) 2 < high - low)%nat) by (apply Nat.div_lt; lia).
+        remember (Nat.div (high - low) 2) as q. clear Heqq.
+        destruct (nth_error rows (q + low)) as [r|] eqn:N.
+        * rewrite (Hp _ _ N). destruct (Nat.ltb (q + low) k) eqn:M.
+          -- apply Nat.ltb_lt in M. apply IH; [split; assumption | lia | lia | lia | lia].
+          -- apply Nat.ltb_ge in M. apply IH; [split; assumption | lia | lia | lia | lia].
+        * apply nth_error_None in N. lia.
+      + apply Nat.ltb_ge in L. f_equal. lia.
+  Qed.
+
+  Lemma partitioned_tail : forall r rows k, partitioned (r :: rows) (S k) -> partitioned rows k.
+  Proof.
+    intros r rows k [Hk Hp]. split; [cbn [length] in Hk; lia|]. intros i r' N. exact (Hp (S i) r' N).
+  Qed.
+  Lemma partitioned_tail0 : forall r rows, partitioned (r :: rows) O -> partitioned rows O.
+  Proof.
+    intros r rows [Hk Hp]. split; [lia|]. intros i r' N. rewrite (Hp (S i) r' N). reflexivity.
+  Qed.
+
+  Lemma linear_go_partitioned : forall rows k low, partitioned rows k -> linear_go rows f low = Some (low + k)%nat.
+  Proof.
+    induction rows as [|r rows IH]; intros k low Hp; cbn [linear_go].
+    - destruct Hp as [Hk _]. cbn [length] in Hk. f_equal. lia.
+    - pose proof (proj2 Hp O r eq_refl) as F. rewrite F. destruct k as [|k]; cbn.
+      + f_equal. lia.
+      + rewrite (IH k (S low) (partitioned_tail r rows k Hp)). f_equal. lia.
+  Qed.
+
+  Lemma count_partitioned : forall rows k, partitioned rows k ->
+    length (filter (fun r => match f r with Some true => true | _ => false end) rows) = k.
+  Proof.
+    induction rows as [|r rows IH]; intros k Hp; cbn [filter].
+    - destruct Hp as [Hk _]. cbn [length] in *. lia.
+    - pose proof (proj2 Hp O r eq_refl) as F. rewrite F. destruct k as [|k]; cbn.
+      + apply (IH O). eapply partitioned_tail0; eassumption.
+      + f_equal. apply IH. eapply partitioned_tail; eassumption.
+  Qed.
+End Search.
+
+Lemma side_fn_typed : forall sch sos left target r, row_typed sch target -> row_typed sch r ->
+  side_fn left target sos r = Some (if left then is_lt (rcmp sos r target) else is_le (rcmp sos r target)).
+Proof. intros. unfold side_fn. rewrite (compare_rows_typed sch sos r target) by assumption. reflexivity. Qed.
+
+Lemma sorted_partitioned : forall sch sos left target rows,
+  row_typed sch target -> Forall (row_typed sch) rows ->
+  StronglySorted (fun a b => rcmp sos a b <> Gt) rows ->
+  exists k, partitioned (side_fn left target sos) rows k.
+Proof.
+  intros sch sos left target rows Ht. induction rows as [|r rows IH]; intros Hty Hs.
+  - exists O. split; [cbn; lia|]. intros i r N. destruct i; discriminate.
+  - apply Forall_cons_iff in Hty. destruct Hty as [Hr Hty]. apply StronglySorted_inv in Hs. destruct Hs as [Hs Hle].
+    destruct (IH Hty Hs) as [k' Hp]. pose proof (side_fn_typed sch sos left target r Ht Hr) as Fr.
+    set (P := row_typed sch).
+    assert (An : forall u v, P u -> P v -> rcmp sos v u = CompOpp (rcmp sos u v)) by (unfold P; intros; apply (rcmp_anti sch); assumption).
+    assert (Tr : forall u v w, P u -> P v -> P w -> rcmp sos u v <> Gt -> rcmp sos v w <> Gt -> rcmp sos u w <> Gt)
+      by (unfold P; intros u v w ? ? ?; apply (rcmp_trans sch); assumption).
+    destruct (if left then is_lt (rcmp sos r target) else is_le (rcmp sos r target)) eqn:B.
+    + exists (S k'). split; [cbn [length]; destruct Hp; lia|]. intros i r' N. destruct i as [|i].
+      * cbn [nth_error] in N. assert (E : r' = r) by congruence. subst r'. rewrite Fr. try rewrite B. reflexivity.
+      * exact (proj2 Hp i r' N).
+    + assert (K : k' = O).
+      { destruct k' as [|k']; [reflexivity|]. exfalso. destruct Hp as [Hk Hp].
+        destruct rows as [|r1 rows]; [cbn in Hk; lia|].
+        pose proof (Hp O r1 eq_refl) as F1. apply Forall_cons_iff in Hty. destruct Hty as [Hr1 _].
+        rewrite (side_fn_typed sch sos left target r1 Ht Hr1) in F1. inversion F1 as [F1']. clear F1.
+        apply Forall_cons_iff in Hle. destruct Hle as [Hle _].
+        destruct left.
+        - assert (rcmp sos r target = Lt).
+          { apply (on_le_lt P (rcmp sos) An Tr r r1 target); try assumption. destruct (rcmp sos r1 target); cbn in F1'; congruence. }
+          rewrite H in B. discriminate.
+        - assert (rcmp sos r target <> Gt).
+          { apply (Tr r r1 target); try assumption. destruct (rcmp sos r1 target); cbn in F1'; congruence. }
+          destruct (rcmp sos r target); cbn in B; congruence. }
+      subst k'. exists O. split; [lia|]. intros i r' N. destruct i as [|i].
+      * cbn [nth_error] in N. assert (E : r' = r) by congruence. subst r'. rewrite Fr. try rewrite B. reflexivity.
+      * rewrite (proj2 Hp i r' N). reflexivity.
+Qed.
+
+Theorem bisect_spec_pf : forall sch sos left target rows,
+  row_typed sch target -> Forall (row_typed sch) rows ->
+  StronglySorted (fun a b => compare_rows a b sos <> Some Gt) rows ->
+  bisect left rows target sos = Some (count_before left rows target sos) /\
+  linear_search left rows target sos = Some (count_before left rows target sos).
+Proof.
+  intros sch sos left target rows Ht Hty Hs.
+  assert (Hs' : StronglySorted (fun a b => rcmp sos a b <> Gt) rows).
+  { clear Ht. induction Hs as [|r rows Hs IH Hle]; [constructor|].
+    apply Forall_cons_iff in Hty. destruct Hty as [Hr Hty]. constructor; [apply IH; assumption|].
+    rewrite Forall_forall in *. intros b Hb G. apply (Hle b Hb).
+    rewrite (compare_rows_typed sch sos r b Hr (Hty b Hb)). congruence. }
+  destruct (sorted_partitioned sch sos left target rows Ht Hty Hs') as [k Hp].
+  unfold bisect, linear_search, count_before. rewrite (count_partitioned _ rows k Hp). split.
+  - apply bisect_go_partitioned; [assumption | lia | destruct Hp; lia | lia | lia].
+  - rewrite (linear_go_partitioned _ rows k O Hp). reflexivity.
 Qed.
